@@ -1289,6 +1289,16 @@ M('C03', 'MPO.sort_legcharges refreshes IdL/IdR by slicing (twin)', 'tenpy/netwo
   "        self.IdL = list(self.IdL)\n        self.IdR = list(self.IdR)\n", "        self.IdL = self.IdL[:]\n        self.IdR = self.IdR[:]\n",
   None, expect='silent')
 
+M('C11', 'original defect: MPO.expectation_value expands init_env_data into expectation_value_finite', 'tenpy/networks/mpo.py',
+  "            return self.expectation_value_finite(psi, init_env_data=init_env_data)", "            return self.expectation_value_finite(psi, **init_env_data)",
+  'CALL-dict-forward')
+M('C11', 'original defect: MPO.expectation_value expands init_env_data into expectation_value_TM', 'tenpy/networks/mpo.py',
+  "            return self.expectation_value_TM(psi, tol=tol, init_env_data=init_env_data)", "            return self.expectation_value_TM(psi, tol=tol, **init_env_data)",
+  'CALL-dict-forward')
+M('C11', 'MPO.expectation_value passes init_env_data positionally (twin)', 'tenpy/networks/mpo.py',
+  "            return self.expectation_value_finite(psi, init_env_data=init_env_data)", "            return self.expectation_value_finite(psi, init_env_data)",
+  None, expect='silent')
+
 # ---------------------------------------------------------------- C16 / C19
 M('C16', 'GMRES restart: relative residual norm used for normalisation (round-3 seed b)', KRY,
   """        self.total_error.append([npc.norm(self.rs[-1]) / self.b_norm])
